@@ -61,6 +61,22 @@ def run_C12(ctx):
                              ("C01", "C06", "C11", "C14", "C15", "C16", "C19")])
 
 
+def run_C03(ctx):
+    cfg = "INIT CInit\nNEXT CNext\nINVARIANT EmitCall\nCHECK_DEADLOCK FALSE\n"
+    hist, n = generate_histories(ctx, "Calls", cfg)
+    if ctx.tier == "quick":
+        done = replay_histories(ctx, hist, "replay-calls", limit=40000, seed_shuffle=ctx.seed)
+        ctx.notes.append("call space of %d calls enumerated by TLC; %d of them (seeded sample) replayed" % (n, done))
+    else:
+        done = replay_histories(ctx, hist, "replay-calls")
+        ctx.exhaustive = (done == n and ctx.events == 2 * n)
+        ctx.notes.append("call space of %d calls enumerated by TLC and replayed completely: %s" % (n, ctx.exhaustive))
+    # every other driver's workload also counts: their events carry the outcome
+    k = sz(ctx, 400, 10000)
+    drive_and_validate(ctx, [{"driver": "OUT:" + d, "n": k, "probes": 2} for d in
+                             ("C01", "C06", "C11", "C14", "C15", "C16", "C19", "C17")])
+
+
 PROPS = {
     "C01": {"run": run_C01,
             "rule": "seeded generators (9 families) x 4 clip types x 4 fill rules x 4 entry points; an event is non-trivial "
@@ -92,6 +108,11 @@ PROPS = {
                     "operations on a clipper64, a clipperD and a ClipperOffset, enumerated by TLC from Lifecycle.tla and "
                     "replayed; non-trivial: executions preceded by an earlier execution on the same object; plus every "
                     "driver's calls with arguments compared before/after"},
+    "C03": {"run": run_C03,
+            "rule": "the finite degenerate call space of Calls.tla (paths of 0..3 points over {0,1,2}^2 plus 10 longer "
+                    "degenerate shapes, empty/inverted rectangles, every enum value including one past the last, deltas "
+                    "0, +-0.25 .. +-5e8, precisions -9..9, x10^6 magnitudes), enumerated by TLC; every call counts as "
+                    "non-trivial (each is a distinct degenerate configuration)"},
     "C02": {"run": run_C02,
             "rule": "as C01 with preserve-collinear / reverse-solution toggled; non-trivial as C01"},
 }
